@@ -33,6 +33,8 @@ DROPPERS = ("::ok", "::unwrap_or", "::unwrap_or_default", "::is_ok", "::is_err",
 
 # attribute table for R20.3: generator fn -> [(attribute local name, condition or None)]
 ATTRS = {
+    "dashu_macros::parse::common::quote_words": [("u16_len", None), ("u32_len", None), ("u64_len", None),
+                                                  ("u16_tokens", None), ("u32_tokens", None), ("u64_tokens", None)],
     "dashu_macros::parse::int::quote_ubig": [("bytes", None)],
     "dashu_macros::parse::int::quote_ibig": [("sign", None), ("mag", None)],
     "dashu_macros::parse::int::parse_integer": [("big", None), ("sign", ("arg", 1, 1))],
@@ -187,7 +189,10 @@ def _r20_2(res, P, cfgname):
 
 
 def _named_locals(body, name):
-    return [v["p"]["l"] for v in body.get("vars", []) if v["n"] == name and not v["p"].get("p")]
+    """the *first* binding with that name (later `let sign = quote_sign(.., sign)` shadowings are
+    token streams derived from it and are reached through the forward slice)"""
+    ls = [v["p"]["l"] for v in body.get("vars", []) if v["n"] == name and not v["p"].get("p")]
+    return ls[:1]
 
 
 def _r20_3(res, P, cfgname):
